@@ -19,6 +19,7 @@ fn versions(doc: usize) -> Vec<(&'static str, &'static str)> {
             ("fx and gx form a cycle", "import pytest\n\n@pytest.fixture\ndef fx(gx):\n    return 1\n\n@pytest.fixture\ndef gx(fx):\n    return 2\n"),
             ("session-scoped sx depends on function-scoped fx", "import pytest\n\n@pytest.fixture\ndef fx():\n    return 1\n\n@pytest.fixture(scope=\"session\")\ndef sx(fx):\n    return 2\n"),
             ("empty", "import pytest\n"),
+            ("the same cycle, three lines lower", "import pytest\n\nA = 1\nB = 2\n\n@pytest.fixture\ndef fx(gx):\n    return 1\n\n@pytest.fixture\ndef gx(fx):\n    return 2\n"),
         ]
     } else {
         vec![
@@ -187,7 +188,7 @@ pub fn run(rep: &'static Report) {
     let cfgs = configs();
     // (a) every history of exactly `depth` notifications (all shorter ones are prefixes, checked
     //     after every step) under the default configuration
-    let actions: Vec<(usize, usize)> = (0..2).flat_map(|d| (0..4).map(move |v| (d, v))).collect();
+    let actions: Vec<(usize, usize)> = (0..2).flat_map(|d| (0..versions(d).len()).map(move |v| (d, v))).collect();
     let mut hists: Vec<Vec<(usize, usize)>> = vec![vec![]];
     for _ in 0..depth {
         let mut next = Vec::new();
@@ -240,6 +241,6 @@ pub fn run(rep: &'static Report) {
     rep.set("history_depth", depth as u64);
     rep.set("exhaustive", true);
     rep.sample(json!({"config": cfgs[9].desc, "pyproject": cfgs[9].toml, "history": fixed[0].iter().map(|(d, v)| format!("{} := {}", DOCS[*d], versions(*d)[*v].0)).collect::<Vec<_>>()}));
-    rep.set("rule", "sessions with the REAL server binary over stdio on a tmpfs workspace (documents exist only in the editor; the client waits for the scan-complete log message first): (a) EVERY history of didOpen/didChange notifications of the stated depth over 2 documents × 4 versions (cycle, scope mismatch, undeclared use, declared, broken syntax, empty), checked after every notification, default configuration; (b) every configuration — 8 subsets of disabled codes × {valid, unknown code mixed in, invalid glob mixed in, wrong type for another key, malformed TOML} + no file — under 3 fixed histories that raise and clear all three kinds of findings; oracle = a FRESH library index of the latest valid content of every document (the changed one analysed last), rendered with the publishing conventions and filtered by the reference configuration semantics; states = (conftest version, test version, last-changed document, configuration)");
+    rep.set("rule", "sessions with the REAL server binary over stdio on a tmpfs workspace (documents exist only in the editor; the client waits for the scan-complete log message first): (a) EVERY history of didOpen/didChange notifications of the stated depth over 2 documents × 5+4 versions (cycle, the same cycle three lines lower, scope mismatch, undeclared use, declared, broken syntax, empty), checked after every notification, default configuration; (b) every configuration — 8 subsets of disabled codes × {valid, unknown code mixed in, invalid glob mixed in, wrong type for another key, malformed TOML} + no file — under 3 fixed histories that raise and clear all three kinds of findings; oracle = a FRESH library index of the latest valid content of every document (the changed one analysed last), rendered with the publishing conventions and filtered by the reference configuration semantics; states = (conftest version, test version, last-changed document, configuration)");
     rep.assume("a pyproject.toml whose section has a key of the wrong type is treated like an unparsable file (defaults: nothing disabled)");
 }
